@@ -50,6 +50,9 @@
 #define SYMKEY 5
 #endif
 #define IN_HANDLER (ROUTE == 3 || ROUTE == 7)
+/* the source fired and was one-shot: it has left the registry (and, with auto-close, its descriptor is closed) */
+#define GONE (FIRE && (ONESHOT || KIND >= 6))
+#define C20_STILL_REGISTERED() do { if (GONE) c20_invariant(); else c20_untouched(); } while (0)
 
 int my_task(void *arg) { (void)arg; return 41; }
 #define VF_ACTION my_action
@@ -167,7 +170,8 @@ int vf_main(void) {
     r = m_ctx_dispatch(); VF_CHECK(r == 1, "the source fires once");
     VF_CHECK(vf_ncalls[0] == 1, "and is delivered to A");
     c20_invariant();
-    if (!(ONESHOT || KIND >= 6)) c20_untouched();
+    C20_STILL_REGISTERED();
+    if (GONE) c20_user_settled();        /* a one-shot source is deregistered by its first event */
 #endif
 
     /* ---- the route out of RUNNING ---- */
@@ -175,7 +179,7 @@ int vf_main(void) {
     r = m_mod_stop(A); VF_CHECK(r == 0, "stop A");
 #elif ROUTE == 1
     r = m_mod_ps_poisonpill(B, A); VF_CHECK(r == 0, "B sends A the poison pill");
-    c20_untouched();
+    C20_STILL_REGISTERED();
     r = m_ctx_dispatch();
     VF_CHECK(m_mod_is(A, M_MOD_STOPPED), "the pill stopped A");
 #elif ROUTE == 2
@@ -197,17 +201,17 @@ int vf_main(void) {
     r = m_mod_stop(A); VF_CHECK(r == 0, "stop A");
 #elif ROUTE == 5
     r = m_mod_pause(A); VF_CHECK(r == 0, "pause A");
-    c20_untouched();
+    C20_STILL_REGISTERED();
     r = m_mod_resume(A); VF_CHECK(r == 0, "resume A");
-    c20_untouched();
+    C20_STILL_REGISTERED();
     r = m_mod_stop(A); VF_CHECK(r == 0, "stop A");
 #elif ROUTE == 6
     r = m_mod_pause(A); VF_CHECK(r == 0, "pause A");
-    c20_untouched();
+    C20_STILL_REGISTERED();
     r = m_mod_stop(A); VF_CHECK(r == 0, "stop A while PAUSED");
 #elif ROUTE == 8
     r = m_mod_pause(A); VF_CHECK(r == 0, "pause A");
-    c20_untouched();
+    C20_STILL_REGISTERED();
     r = dereg_src(A);
     if (KIND == 6) VF_CHECK(r == -EPERM, "tasks cannot be deregistered"); else VF_CHECK(r == 0, "explicit deregistration while PAUSED");
     if (KIND != 6) c20_user_settled();
